@@ -178,7 +178,7 @@ func sRegionsMeet(a, b []Point) bool {
 }
 
 // H_API_PolyPoly: concrete hole-free polygon A; B is a concrete shape under an arbitrary real translation (tx,ty):
-// every relative placement of the two shapes. params: kind, ring A, ring B
+// every relative placement of the two shapes. params: kind (kindA + 3*kindB), ring A, ring B
 func H_API_PolyPoly(p []int) {
 	kind := p[0]
 	a, off := vConcreteRing(p, 1)
@@ -188,13 +188,15 @@ func H_API_PolyPoly(p []int) {
 	for i := range b0 {
 		b[i] = Point{b0[i].X + tx, b0[i].Y + ty}
 	}
-	minPts := 0
-	if kind != 0 {
-		minPts = 1
+	// kind = kindA + 3*kindB: the two polygons may carry different segment indexes (or one of them none)
+	mk := func(k int) *IndexOptions {
+		if k == 0 {
+			return &IndexOptions{Kind: None, MinPoints: 0}
+		}
+		return &IndexOptions{Kind: vKind(k), MinPoints: 1}
 	}
-	opts := &IndexOptions{Kind: vKind(kind), MinPoints: minPts}
-	A := NewPoly(vClose(a), nil, opts)
-	B := NewPoly(vClose(b), nil, opts)
+	A := NewPoly(vClose(a), nil, mk(kind%3))
+	B := NewPoly(vClose(b), nil, mk(kind/3))
 	meet := sRegionsMeet(a, b)
 	vAssert(A.IntersectsPoly(B) == meet, "C02.api-poly-intersects-poly")
 	vAssert(B.IntersectsPoly(A) == meet, "C02.api-poly-intersects-poly-swapped")
